@@ -15,6 +15,7 @@ import (
 	"github.com/mycoria/mycoria/frame"
 	"github.com/mycoria/mycoria/m"
 	"github.com/mycoria/mycoria/router"
+	"github.com/mycoria/mycoria/storage"
 
 	"verifharness/internal/world"
 )
@@ -57,9 +58,10 @@ func Identities(n int) []*m.Address {
 type Opts struct {
 	Cfg     func(i int) config.Store // per node config (1-based id); nil = empty
 	Latency uint16
-	WithTun func(i int) bool // give node i a tun stand-in (traffic handling on)
-	Extra   int              // additional, unconnected nodes appended after the n mesh nodes
-	IDs     []*m.Address     // identities of the nodes (default: the pooled identities of one continent)
+	WithTun func(i int) bool            // give node i a tun stand-in (traffic handling on)
+	Extra   int                         // additional, unconnected nodes appended after the n mesh nodes
+	IDs     []*m.Address                // identities of the nodes (default: the pooled identities of one continent)
+	Store   func(i int) storage.Storage // router storage of node i (nil, or a nil result = the in-memory storage of /repo)
 }
 
 // New builds a mesh of n nodes with the given edges.
@@ -75,7 +77,11 @@ func New(n int, edges []Edge, o Opts) (*Mesh, error) {
 		if o.Cfg != nil {
 			cfg = o.Cfg(i + 1)
 		}
-		nd := ms.W.NewNode(fmt.Sprintf("n%d", i+1), world.NodeOpts{Cfg: cfg, ID: ids[i], WithTun: o.WithTun != nil && o.WithTun(i+1)})
+		var st storage.Storage
+		if o.Store != nil {
+			st = o.Store(i + 1)
+		}
+		nd := ms.W.NewNode(fmt.Sprintf("n%d", i+1), world.NodeOpts{Cfg: cfg, ID: ids[i], WithTun: o.WithTun != nil && o.WithTun(i+1), Store: st})
 		ms.Nodes = append(ms.Nodes, nd)
 		ms.idOf[nd.ID.IP] = i + 1
 	}
